@@ -202,6 +202,10 @@ func prReset() string {
 			return fmt.Errorf("cannot read %s", name)
 		}
 		if prRejected(d) {
+			// a validator may take its time to refuse (concurrent histories only)
+			if dl := atomic.LoadInt64(&prRejectDelay); dl > 0 {
+				time.Sleep(time.Duration(dl))
+			}
 			return fmt.Errorf("rejected")
 		}
 		return nil
@@ -327,10 +331,14 @@ func execPr(op string) func(a []string) string {
 
 // prHistory runs clients and the service concurrently on property level of the hand-written object
 // and returns the history: inv resp w|r name value ok …
+var prRejectDelay int64
+
 func prHistory(r *Rand, threads, opsEach int) (string, string) {
 	if s := prReset(); s != "ok" {
 		return "", s
 	}
+	atomic.StoreInt64(&prRejectDelay, int64(time.Duration(r.Intn(1500))*time.Microsecond))
+	defer atomic.StoreInt64(&prRejectDelay, 0)
 	t := prw.targets["custom"]
 	if err := t.obj.SetProperty(value.String("level"), value.Int(1)); err != nil {
 		return "", "setup-error:" + err.Error()
@@ -370,6 +378,11 @@ func prHistory(r *Rand, threads, opsEach int) (string, string) {
 				case k < 80: // client write (unique value; some refused by the validator)
 					h.kind = "w"
 					h.val = atomic.AddInt64(&next, 1)
+					if k < 55 {
+						h.val = h.val*7 + 5 // one the validator refuses
+					} else if prRejected(h.val) {
+						h.val = atomic.AddInt64(&next, 1)
+					}
 					h.inv = atomic.AddInt64(&clock, 1)
 					err := t.obj.SetProperty(value.String("level"), value.Int(int32(h.val)))
 					h.resp = atomic.AddInt64(&clock, 1)
